@@ -36,6 +36,44 @@ impl Graph {
     pub fn vertex_type(&self, v: usize) -> VType {
         VType::B
     }
+    pub fn adjacency_matrix(&self, nodes: Option<&[usize]>) -> BitMatrix {
+        BitMatrix(0, 0)
+    }
+    pub fn edges(&self) -> Vec<(usize, usize, EType)> {
+        vec![]
+    }
+    pub fn neighbors(&self, v: usize) -> Vec<usize> {
+        vec![]
+    }
+}
+
+/// stand-in for bitgauss::BitMatrix (shape only)
+pub struct BitMatrix(pub usize, pub usize);
+impl BitMatrix {
+    pub fn identity(n: usize) -> BitMatrix {
+        BitMatrix(n, n)
+    }
+    pub fn zeros(r: usize, c: usize) -> BitMatrix {
+        BitMatrix(r, c)
+    }
+    pub fn vstack(&self, o: &BitMatrix) -> BitMatrix {
+        BitMatrix(self.0 + o.0, self.1)
+    }
+    pub fn hstack(&self, o: &BitMatrix) -> BitMatrix {
+        BitMatrix(self.0, self.1 + o.1)
+    }
+    pub fn rows(&self) -> usize {
+        self.0
+    }
+    pub fn cols(&self) -> usize {
+        self.1
+    }
+    pub fn nullspace(&self) -> Vec<BitMatrix> {
+        vec![]
+    }
+    pub fn bit(&self, r: usize, c: usize) -> bool {
+        false
+    }
 }
 
 #[derive(Clone, Copy, PartialEq)]
